@@ -381,6 +381,49 @@ class BaseWorklist(list):
         dst_rack_type : str, optional
             Configuration name of the destination labware
         """
+        self.append(
+            self._reagent_distribution_record(
+                src_rack_label,
+                src_start,
+                src_end,
+                dst_rack_label,
+                dst_start,
+                dst_end,
+                volume=volume,
+                diti_reuse=diti_reuse,
+                multi_disp=multi_disp,
+                exclude_wells=exclude_wells,
+                liquid_class=liquid_class,
+                direction=direction,
+                src_rack_id=src_rack_id,
+                src_rack_type=src_rack_type,
+                dst_rack_id=dst_rack_id,
+                dst_rack_type=dst_rack_type,
+            )
+        )
+        return
+
+    def _reagent_distribution_record(
+        self,
+        src_rack_label: str,
+        src_start: int,
+        src_end: int,
+        dst_rack_label: str,
+        dst_start: int,
+        dst_end: int,
+        *,
+        volume: float,
+        diti_reuse: int = 1,
+        multi_disp: int = 1,
+        exclude_wells: Optional[Iterable[int]] = None,
+        liquid_class: str = "",
+        direction: str = "left_to_right",
+        src_rack_id: str = "",
+        src_rack_type: str = "",
+        dst_rack_id: str = "",
+        dst_rack_type: str = "",
+    ) -> str:
+        """Checks the arguments of `reagent_distribution` and returns the record that it writes."""
         # check & convert arguments
         if not direction in {"left_to_right", "right_to_left"}:
             raise ValueError(f'"direction" must be either "left_to_right" or "right_to_left"')
@@ -457,10 +500,7 @@ class BaseWorklist(list):
 
         src_parameters = f"{src_rack_label};{src_rack_id};{src_rack_type};{src_start};{src_end}"
         dst_parameters = f"{dst_rack_label};{dst_rack_id};{dst_rack_type};{dst_start};{dst_end}"
-        self.append(
-            f"R;{src_parameters};{dst_parameters};{volume};{liquid_class};{diti_reuse};{multi_disp};{direction_i}{exclude_str}"
-        )
-        return
+        return f"R;{src_parameters};{dst_parameters};{volume};{liquid_class};{diti_reuse};{multi_disp};{direction_i}{exclude_str}"
 
     def _validate_well_records(
         self,
@@ -696,14 +736,46 @@ class BaseWorklist(list):
         dst_start, dst_end = dst_wells[0], dst_wells[-1]
         excluded_dst_wells = set(range(dst_start, dst_end + 1)).difference(dst_wells)
 
-        # update volume tracking first, so that a step refused by the volume checks is never emitted
+        # a call whose label or pass-through arguments cannot be written must neither
+        # change a labware nor leave records behind
+        if label and ";" in label:
+            raise ValueError("Illegal semicolon in comment.")
         n_dst = len(dst_wells)
-        source.remove(source.wells[0, source_column], float(volume) * n_dst, label=label)
-        src_composition = source.get_well_composition(source.wells[0, source_column])
-        destination.add(destination_wells, volume, label=label, compositions=[src_composition] * n_dst)
-        if destination == source:
-            # like transfer(): one history entry per operation when it stays within one labware
-            source.condense_log(2, label=label)
+
+        def book(source, destination):
+            source.remove(source.wells[0, source_column], float(volume) * n_dst, label=label)
+            src_composition = source.get_well_composition(source.wells[0, source_column])
+            destination.add(destination_wells, volume, label=label, compositions=[src_composition] * n_dst)
+            if destination == source:
+                # like transfer(): one history entry per operation when it stays within one labware
+                source.condense_log(2, label=label)
+
+        try:
+            self._reagent_distribution_record(
+                source.name,
+                src_start,
+                src_end,
+                destination.name,
+                dst_start,
+                dst_end,
+                volume=volume,
+                diti_reuse=diti_reuse,
+                multi_disp=multi_disp,
+                exclude_wells=excluded_dst_wells,
+                liquid_class=liquid_class,
+                direction=direction,
+                src_rack_id=src_rack_id,
+                src_rack_type=src_rack_type,
+                dst_rack_id=dst_rack_id,
+                dst_rack_type=dst_rack_type,
+            )
+        except (ValueError, InvalidOperationError):
+            # a violation of the labwares' own volume limits takes precedence
+            book(*copy.deepcopy((source, destination)))
+            raise
+
+        # update volume tracking first, so that a step refused by the volume checks is never emitted
+        book(source, destination)
 
         # hand over to low-level command implementation
         self.comment(label)
